@@ -99,6 +99,10 @@ pub fn li_matches(a: &[u8], b: &[u8], ra: bool, rb: bool) -> String {
             let m = x.matches(&y, ra, rb);
             // symmetric under swapping operands together with their flags
             if y.matches(&x, rb, ra) != m { return "LAWFAIL not symmetric".into(); }
+            // the answer is a function of the VALUES: the same object and an equal copy must agree
+            if x.matches(&x, ra, rb) != x.matches(&x.clone(), ra, rb) || y.matches(&y, ra, rb) != y.matches(&y.clone(), ra, rb) {
+                return "LAWFAIL matches() depends on object identity".into();
+            }
             format!("{}", m)
         }
         _ => "BADARG".into(),
@@ -209,6 +213,14 @@ pub fn run(out: &mut Out, tier: &str, rng: &mut Rng) {
             if thorough { for d in red.iter().take(16) { parse_ops(out, &gen::join(&[f, a, b, c, d], rng.next())); } }
         } } }
     }
+    out.comment("real-world tags");
+    for s in crate::corpus::REALWORLD.iter() {
+        let b = s.as_bytes();
+        parse_ops(out, b);
+        out.case("li_into_parts", &[b], || li_into_parts(b));
+        out.case("li_routes", &[b], || li_routes(b));
+        out.case("li_eq_str", &[b, b], || li_eq_str(b, b));
+    }
     out.comment("G3/G4: random well-formed identifiers and 1-3 edit mutations");
     let n = if thorough { 400_000 } else { 30_000 };
     let mut pool: Vec<Vec<u8>> = vec![];
@@ -227,7 +239,9 @@ pub fn run(out: &mut Out, tier: &str, rng: &mut Rng) {
     let n = if thorough { 20_000 } else { 2_000 };
     for _ in 0..n {
         let mut toks = gen::wf_langid_tokens(rng);
+        let v0 = toks.len();
         for _ in 0..(5 + rng.below(26)) { toks.push(gen::rand_variant(rng)); }
+        if rng.chance(1, 2) { for _ in 0..(1 + rng.below(3)) { let d = toks[v0 + rng.below(toks.len() - v0)].clone(); toks.push(d); } }
         let s = gen::render(rng, &toks);
         parse_ops(out, &s);
         out.case("li_into_parts", &[&s], || li_into_parts(&s));
